@@ -238,3 +238,26 @@ Proof.
   destruct (run Tp.st (Tp.step ex_tp) (Tp.init ex_tp) (firstn 20 ex_tp_trace)) as [s|] eqn:E; [|vm_compute in E; discriminate].
   exists s. split; [exists (firstn 20 ex_tp_trace); exact E|]. vm_compute in E. inversion E; subst. vm_compute. repeat split.
 Qed.
+
+(* overflow thread (variant reg = true): real event trace of the implementation with fixes/exec-tp-overflow-register.diff; thread 30
+   is created by the third iwtp_schedule, runs task 1, unregisters itself and leaves before the shutdown *)
+Definition ex_ovf : Tp.cfg := Tp.mkcfg 1 0 1 true true.
+Definition ex_ovf_trace : list (tid * ev) :=
+  [(0, ELock); (0, EUnlock); (0, ELock); (0, EUnlock); (0, ELock); (0, EWait 0);
+   (10, ECall 0 0 false); (10, ELock); (10, EEnq 0); (10, ESignal 0 (Some 0)); (10, EUnlock); (10, ERet 0 true);
+   (0, EWake 0); (0, EUnlock); (0, ELock); (0, EDeq 0); (0, EUnlock); (0, ERun 0);
+   (10, ECall 0 1 false); (10, ELock); (10, EEnq 1); (10, ESignal 0 None); (10, EUnlock); (10, ERet 0 true);
+   (10, ECall 0 2 false); (10, ELock); (10, EEnq 2); (10, ESpawn 30); (10, ESignal 0 None); (10, EUnlock); (10, ERet 0 true);
+   (30, ELock); (30, EUnlock); (30, ELock); (30, EDeq 1); (30, EUnlock); (30, ERun 1); (30, EDone 1); (30, ELock); (30, EUnlock);
+   (30, EExit);
+   (20, ECall 3 0 true); (20, ELock); (20, EBcast 0); (20, EUnlock);
+   (0, EDone 0); (0, ELock); (0, EUnlock); (0, ELock); (0, EDeq 2); (0, EUnlock); (0, ERun 2); (0, EDone 2); (0, ELock);
+   (0, EUnlock); (0, EExit);
+   (20, EJoin 0); (20, EFree)].
+
+Example C20_ex_tp_overflow : exists s, Tp_proofs.R ex_ovf s /\ Tp.pc (Tp.th s 20) = Tp.QFreed /\ Tp.done s = [1; 0; 2] /\
+  Tp.acc s = [0; 1; 2] /\ Tp.regs s = [0] /\ Tp.workers s = [0; 30] /\ Tp.pc (Tp.th s 30) = Tp.TDead /\ Tp.uaf s = false.
+Proof.
+  destruct (run Tp.st (Tp.step ex_ovf) (Tp.init ex_ovf) ex_ovf_trace) as [s|] eqn:E; [|vm_compute in E; discriminate].
+  exists s. split; [exists ex_ovf_trace; exact E|]. vm_compute in E. inversion E; subst. vm_compute. repeat split.
+Qed.
